@@ -10,7 +10,7 @@ from gen_config import *  # noqa
 PROP_FILES = ["Config/Properties_C18.v"]
 MANIFEST = dict(
     technique="Coq proof (case analysis over policy x cache x hash x server with arbitrary contents, SHA-256 an uninterpreted section variable; induction over fetch histories sharing one cache) on a Gallina port of fetch_remote_config_with_client, tied by an exhaustive run of the policy table through the re-exported function with a scripted HttpClient, sampled histories, and real kills at every hook point of the cache write",
-    text="Theorems C18_integrity, C18_never_caches_mismatch, C18_offline_never_fetches, C18_refresh_never_reads_cache, C18_normal_respects_ttl, C18_sequence_inv, C18_failed_fetch_leaves_cache, C18_crash_with_hash_safe, C18_crash_without_hash hold for every hash function, every content, every clock value and every history (unbounded). The tie to the Rust code: the full product policy(3) x cache state(21: absent, 5 ages x 4 bodies) x expected hash(3) x server(4) under the simulated and the wall clock, sampled histories of 2-4 fetches, and a child process killed at each named point of the cache write followed by a second run.",
+    text="Theorems C18_integrity, C18_never_caches_mismatch, C18_offline_never_fetches, C18_refresh_never_reads_cache, C18_normal_respects_ttl, C18_sequence_inv, C18_failed_fetch_leaves_cache, C18_crash_with_hash_safe, C18_crash_without_hash hold for every hash function, every content, every clock value and every history (unbounded). The tie to the Rust code: the full product policy(3) x cache state(21: absent, 5 ages x 4 bodies) x extends_sha256(11, incl. empty / prefix / upper-case / over-long / last-char-differs pins) x server(4) under the simulated and the wall clock, sampled histories of 2-4 fetches, and a child process killed at each named point of the cache write followed by a second run.",
     note="Trusted: Coq kernel, extraction, harness sgv-config (scripted client, clock virtualisation: a cache file written under the simulated clock is re-stamped with the simulated time), sha2, the file system's rename atomicity. reqwest/TLS are not exercised.",
     ref="5 (C18)")
 
@@ -30,6 +30,20 @@ CRASH_POINTS = ["rc:before_create", "aw:start", "aw:after_mkparent", "aw:after_c
                 "rc:after_write"]
 # model crash point of each hook name (the cache write is atomic: old entry until the rename, new entry after)
 CP_MODEL = {p: ("after_rename" if p in ("aw:after_rename", "aw:after_unlock", "rc:after_write") else "before_rename") for p in CRASH_POINTS}
+
+
+def pins():
+    """The extends_sha256 values exercised: (label, value). The model compares the pin with H(content)
+    by equality, so everything but the exact lower-case digest is a mismatch."""
+    g = sha256_hex(GOOD)
+    last = g[:-1] + ("0" if g[-1] != "0" else "1")
+    up = g.upper()
+    if up == g:
+        raise CheckBroken("digest of GOOD has no letter: choose another body")
+    return [("absent", None), ("correct digest", g), ("digest of the old body", sha256_hex(OLD)),
+            ("empty string", ""), ("prefix-1", g[:1]), ("prefix-4", g[:4]), ("prefix-32", g[:32]), ("prefix-63", g[:63]),
+            ("correct digest in upper case", up), ("correct digest plus one character", g + "0"),
+            ("64 characters, last one differs", last)]
 
 
 def htable():
@@ -79,7 +93,7 @@ def oracle_row(policy, now, cache, expected, server, out):
     if o[0] == "OTHER":
         fails.append("unexpected answer " + o[1][:80])
     if expected is not None and o[0] == "CONTENT" and sha256_hex(o[1]) != expected:
-        fails.append("integrity: effective content does not have the expected hash")
+        fails.append("integrity: effective content has SHA-256 %s but extends_sha256 = %r was accepted" % (sha256_hex(o[1]), expected))
     if expected is not None and c2 != cache and (c2 is None or sha256_hex(c2[1]) != expected):
         fails.append("a body whose hash differs from extends_sha256 was written to the cache")
     if policy == "offline":
@@ -122,7 +136,7 @@ def table_rows():
     rows = []
     for policy in ("normal", "offline", "refresh"):
         for c in caches:
-            for expected in (None, sha256_hex(GOOD), sha256_hex(OLD)):
+            for _, expected in pins():
                 for server in (("B", GOOD), ("B", ALT), ("F", 1), ("F", 2)):
                     rows.append((policy, N0, c, expected, server))
     return rows
@@ -146,7 +160,7 @@ def run_table(ctx, env, st, real):
         # wall clock: ages away from the boundary (the clock ticks between set-up and call), no future stamps
         rows = [r for r in rows if r[2] is None or (N0 - r[2][0]) in (10, 7200)]
         rows += [(p, N0, (N0 - age, b), e, s) for p in ("normal",) for age in (3590, 3610) for b in (GOOD, OLD)
-                 for e in (None, sha256_hex(GOOD)) for s in (("B", GOOD), ("F", 1))]
+                 for e in (None, sha256_hex(GOOD), "", sha256_hex(GOOD)[:4], sha256_hex(GOOD).upper()) for s in (("B", GOOD), ("F", 1))]
     ml, il = zip(*[row_lines(r, real) for r in rows])
     iouts, ierrs = run_sharded(env["impl"], list(il), args=["run"])
     mouts, merrs = run_sharded(env["model"], list(ml))
@@ -200,7 +214,7 @@ def run_sequences(ctx, env, st, n):
         for _ in range(k):
             now += rng.choice([0, 10, 1800, 3599, 3600, 4000])
             policy = rng.choice(["normal", "normal", "normal", "offline", "refresh"])
-            expected = rng.choice([None, None, sha256_hex(GOOD), sha256_hex(GOOD), sha256_hex(ALT)])
+            expected = rng.choice([None, None, sha256_hex(GOOD), sha256_hex(GOOD), sha256_hex(ALT)] + [v for _, v in pins()[3:]])
             server = rng.choice([("B", GOOD), ("B", GOOD), ("B", ALT), ("B", NEW), ("F", 1), ("F", 2)])
             steps.append((policy, now, expected, server))
         seqs.append((c, steps))
@@ -232,7 +246,8 @@ def run_sequences(ctx, env, st, n):
             oc = parse_outcome(o.rsplit(" ", 1)[0])
             if oc[0] == "CONTENT":
                 if s[2] is not None and sha256_hex(oc[1]) != s[2]:
-                    st["fails"].append({"level": "sequence", "model_line": m, "impl": io, "what": "integrity violated inside a history"})
+                    st["fails"].append({"level": "sequence", "model_line": m, "impl": io,
+                                        "what": "integrity violated inside a history: content with SHA-256 %s accepted under extends_sha256 = %r" % (sha256_hex(oc[1]), s[2])})
                 if oc[1] not in served:
                     st["fails"].append({"level": "sequence", "model_line": m, "impl": io, "what": "content that nobody served"})
         hs = {s[2] for s in steps}
@@ -348,12 +363,55 @@ def run_crashes(ctx, env, st):
     ctx.sample({"level": "crash", "points_swept": points, "points_reached": sorted(reached), "scenarios": len(scen)})
 
 
+# ------------------------------------------------------------------ the pin through the CLI (resolver passes it down)
+
+def run_cli_pins(ctx, env, st):
+    """leaf.toml extends a remote whose body sits in the cache; `--extends-policy offline config show`.
+    The pin travels leaf -> ExtendsResolver -> fetch_remote_config. Only the exact digest (or no pin)
+    may be accepted; everything else must exit 2 with a hash-mismatch diagnostic, cache untouched."""
+    url = "https://example.invalid/sgv/c18-cli.toml"
+    body = "[content]\nmax_lines = 123\n"
+    g = sha256_hex(body)
+    last = g[:-1] + ("0" if g[-1] != "0" else "1")
+    cases = [("absent", None, 0), ("correct digest", g, 0), ("empty string", "", 2), ("prefix-1", g[:1], 2), ("prefix-4", g[:4], 2),
+             ("prefix-32", g[:32], 2), ("prefix-63", g[:63], 2), ("correct digest in upper case", g.upper(), 2),
+             ("correct digest plus one character", g + "0", 2), ("64 characters, last one differs", last, 2)]
+    for label, pin, want in cases:
+        with Sandbox("sgv-c18-cli-") as sb:
+            sb.write(".sloc-guard.toml", "")
+            leaf = 'extends = "%s"\n' % url + ('extends_sha256 = "%s"\n' % pin if pin is not None else "")
+            sb.write("cfg/leaf.toml", leaf)
+            cp = sb.write(".sloc-guard/remote-configs/%s.toml" % sha256_hex(url), body)
+            rc, out, err = sb.run(env["cli"], ["--color", "never", "--extends-policy", "offline", "config", "show", "--format", "json", "-c", "cfg/leaf.toml"])
+            st["evals"] += 1
+            st["spawns"] += 1
+            st["hist"]["cli-pin:" + label] = st["hist"].get("cli-pin:" + label, 0) + 1
+            what = None
+            if rc != want:
+                what = "extends_sha256 = %r (%s) over cached content with SHA-256 %s: exit %d, required %d" % (pin, label, g, rc, want)
+            elif want == 0:
+                try:
+                    if json.loads(out)["content"]["max_lines"] != 123:
+                        what = "remote content did not take effect"
+                except (ValueError, KeyError):
+                    what = "unparsable config show output"
+            elif "hash mismatch" not in err:
+                what = "exit 2 without a hash-mismatch diagnostic"
+            if open(cp).read() != body:
+                what = (what or "") + " ; cache file changed"
+            if what:
+                st["fails"].append({"level": "cli-pin", "leaf.toml": leaf, "cached_body": body, "what": what, "impl": {"rc": rc, "stderr": err[-400:]}})
+            else:
+                st["agree"] += 1
+                st["nontrivial"].add("cli-pin:" + label)
+
+
 # ------------------------------------------------------------------ vm_compute cross-check
 
 def xcheck(ctx, env, k):
     """A sub-sample of table rows inside Coq with an injective toy H (the model is parametric in H):
     compared with the extracted driver under the same H."""
-    rows = table_rows()
+    rows = [r for r in table_rows() if r[3] in (None, sha256_hex(GOOD), sha256_hex(OLD))]
     ctx.rng.shuffle(rows)
     rows = rows[:k]
     names = list(BODIES.values())
@@ -393,7 +451,7 @@ def xcheck(ctx, env, k):
 # ------------------------------------------------------------------ entry points
 
 def run(ctx):
-    env = prepare_config(ctx)
+    env = prepare_config(ctx, need_cli=True)
     proofs_ok = proofs_step(ctx, PROP_FILES)
     st = {"hist": {}, "evals": 0, "agree": 0, "mism": [], "fails": [], "known": 0, "nontrivial": set(), "spawns": 0}
     # sha2 vs hashlib, TTL constant of the model vs the crate's behaviour at the boundary (rows 3599 / 3600)
@@ -404,6 +462,8 @@ def run(ctx):
     run_table(ctx, env, st, real=True)
     run_sequences(ctx, env, st, 1500 if ctx.tier == "quick" else 20000)
     run_crashes(ctx, env, st)
+    run_cli_pins(ctx, env, st)
+    ctx.cov["extends_sha256_values_exercised"] = [{"label": l, "value": v} for l, v in pins()]
     xcheck(ctx, env, 40 if ctx.tier == "quick" else 300)
     ctx.cov["evaluations"] = st["evals"]
     ctx.cov["distinct_nontrivial"] = len(st["nontrivial"])
@@ -413,9 +473,11 @@ def run(ctx):
     ctx.cov["exhaustive"] = True
     ctx.cov["input_distribution"] = st["hist"]
     ctx.cov["rule"] = ("exhaustive product policy(normal, offline, refresh) x cache(absent; ages 10, 3599, 3600, 7200, future x bodies matching, other, truncated, empty) x "
-                       "extends_sha256(absent, hash of the correct body, hash of the old body) x server(correct body, altered body, connection error, time-out) = 756 rows under the "
+                       "extends_sha256(11 values: absent, the correct digest, the digest of the old body, the empty string, prefixes of the correct digest of 1 / 4 / 32 / 63 hex digits, "
+                       "the correct digest in upper case, the digest plus one character, 64 characters differing in the last one - the model compares the pin by equality, so all but the "
+                       "exact digest are mismatches) x server(correct body, altered body, connection error, time-out) = 2772 rows under the "
                        "simulated clock (SGV_NOW) plus the rows away from the TTL boundary under the wall clock (cache file aged with set_modified); seeded histories of 2-4 fetches "
-                       "sharing one cache file with an advancing clock; every named hook point of the cache write killed in a child process (SGV_CRASH_AT) for 14 scenarios, each "
+                       "sharing one cache file with an advancing clock and the same pin values; the pin through the CLI (leaf.toml with extends_sha256, cached remote, --extends-policy offline, 10 pin values); every named hook point of the cache write killed in a child process (SGV_CRASH_AT) for 14 scenarios, each "
                        "followed by three second runs with the server unreachable. Observables: returned content or error kind, requests seen by the scripted client, cache bytes "
                        "and mtime afterwards. Every row: impl vs extracted model, impl vs the python reading of the C18 statement. "
                        "non-trivial = distinct row with a cache entry or a pinned hash, every history, every (scenario, kill point) that was reached")
@@ -426,7 +488,16 @@ def run(ctx):
         "rename(2) atomicity and the ordering of file-system effects as observed after SIGABRT (no power-loss model)"]
     ctx.assumptions = ["a project root is present (the CLI always passes one); without it the cache is neither read nor written",
                        "cache write errors other than a kill (disk full, permissions) are ignored by the code and not modelled"]
-    for f in st["fails"][:5]:
+    # at most two replays per level, so that a defect seen at several levels is reported at each
+    shown, per = [], {}
+    for f in st["fails"]:
+        if per.get(f.get("level"), 0) < 2 and len(shown) < 8:
+            per[f.get("level")] = per.get(f.get("level"), 0) + 1
+            shown.append(f)
+    ctx.cov["oracle_failures_by_level"] = {}
+    for f in st["fails"]:
+        ctx.cov["oracle_failures_by_level"][f.get("level")] = ctx.cov["oracle_failures_by_level"].get(f.get("level"), 0) + 1
+    for f in shown:
         ctx.violation(dict(f, kind="property-oracle", replay_cmd="python3 tools/vp.py check C18 --replay <this file>"))
     if not st["fails"]:
         if st["mism"]:
